@@ -159,6 +159,8 @@ void harness(void) {
         float f = tiny[ti];
         memcpy(d + 4 * i, &f, 4);
     }
+#elif defined(TWO_CALLS)
+    for (unsigned i = 0; i < (BLOCK * BITS) / 8; ++i) { d[i] = (uint8_t) (i * 37 + 11); }     /* bookkeeping obligation: sample values are not its subject */
 #else
     SYM_BYTES(d, (BLOCK * BITS) / 8, "samples");
 #endif
@@ -210,6 +212,28 @@ void harness(void) {
         CHECK(g_std == as_stored(sqrt(var)), "entry std = sqrt of the population variance about that mean");
 #endif
     }
+#ifdef TWO_CALLS
+    {   /* a second block into the same level-1 chunk: the chunk keeps the first block's sample id, the index gets a second entry */
+        SYM_I64(ts2); SYM_I64(pos2);
+        ASSUME(ts2 > ts && ts2 < ((int64_t) 1 << 41));
+        fsr->data->header.timestamp = ts2;
+        fsr->data->header.entry_count = BLOCK;
+        CHECK(0 == jls_core_fsr_summary1(fsr, pos2), "second summary1 succeeds");
+        CHECK(l1->summary->header.entry_count == 2 * NE && l1->index->header.entry_count == 2, "two index entries and 2*NE summary entries after two blocks");
+        CHECK(l1->index->offsets[0] == (uint64_t) pos && l1->index->offsets[1] == (uint64_t) pos2, "index entries in block order");
+        CHECK(l1->index->header.timestamp == ts && l1->summary->header.timestamp == ts, "the chunk's sample id stays that of its first block");
+        /* the level-1 chunk is written out (wr_summary empties the level) and filled again */
+        SYM_I64(ts3); SYM_I64(pos3);
+        ASSUME(ts3 > ts2 && ts3 < ((int64_t) 1 << 42));
+        l1->index->header.entry_count = 0;
+        l1->summary->header.entry_count = 0;
+        fsr->data->header.timestamp = ts3;
+        fsr->data->header.entry_count = BLOCK;
+        CHECK(0 == jls_core_fsr_summary1(fsr, pos3), "summary1 into the emptied level succeeds");
+        CHECK(l1->summary->header.entry_count == NE && l1->index->header.entry_count == 1 && l1->index->offsets[0] == (uint64_t) pos3, "the emptied level starts a new chunk");
+        CHECK(l1->index->header.timestamp == ts3 && l1->summary->header.timestamp == ts3, "a new level-1 chunk carries the sample id of ITS first block");
+    }
+#endif
 #elif defined(MODE_LN)
     ASSUME(0 == jls_core_fsr_summary_level_alloc(fsr, 1));
     struct jls_core_fsr_level_s * l1 = fsr->level[1];
@@ -256,6 +280,32 @@ void harness(void) {
         CHECK(g_min == as_stored(rmin) || (isnan(g_min) && rmin == DBL_MAX), "level-N minimum is the minimum of the input minima (finite-mean entries)");
         CHECK(g_max == as_stored(rmax) || (isnan(g_max) && rmax == -DBL_MAX), "level-N maximum is the maximum of the input maxima (finite-mean entries)");
     }
+#ifdef TWO_CALLS
+    {   /* a second level-1 chunk reduced into the same level-2 chunk */
+        SYM_I64(ts2); SYM_I64(pos2);
+        ASSUME(ts2 > ts && ts2 < ((int64_t) 1 << 41));
+        l1->summary->header.entry_count = NE * SUMDF;       /* same entries again, later sample id (the caller, wr_summary, resets the source level after the reduction) */
+        l1->summary->header.timestamp = ts2;
+        l1->index->header.timestamp = ts2;
+        l1->index->header.entry_count = 1;
+        CHECK(0 == jls_core_fsr_summaryN(fsr, 2, pos2), "second summaryN succeeds");
+        CHECK(l2->summary->header.entry_count == 2 * NE && l2->index->header.entry_count == 2, "two index entries and 2*NE entries after two source chunks");
+        CHECK(l2->index->offsets[0] == (uint64_t) pos && l2->index->offsets[1] == (uint64_t) pos2, "index entries in source order");
+        CHECK(l2->index->header.timestamp == ts && l2->summary->header.timestamp == ts, "the level-2 chunk's sample id stays that of its first source chunk");
+        /* the level-2 chunk is written out (wr_summary empties the level: both entry counts = 0, wr_fsr.c) and filled again */
+        SYM_I64(ts3); SYM_I64(pos3);
+        ASSUME(ts3 > ts2 && ts3 < ((int64_t) 1 << 42));
+        l2->index->header.entry_count = 0;
+        l2->summary->header.entry_count = 0;
+        l1->summary->header.entry_count = NE * SUMDF;
+        l1->summary->header.timestamp = ts3;
+        l1->index->header.timestamp = ts3;
+        l1->index->header.entry_count = 1;
+        CHECK(0 == jls_core_fsr_summaryN(fsr, 2, pos3), "summaryN into the emptied level succeeds");
+        CHECK(l2->summary->header.entry_count == NE && l2->index->header.entry_count == 1 && l2->index->offsets[0] == (uint64_t) pos3, "the emptied level starts a new chunk");
+        CHECK(l2->index->header.timestamp == ts3 && l2->summary->header.timestamp == ts3, "a new level-2 chunk carries the sample id of ITS first source chunk");
+    }
+#endif
 #else
 #error "no MODE"
 #endif
